@@ -759,13 +759,16 @@ def run(info, out):
         dist["periods"]["yes" if c.periods is not None else "no"] += 1
         b = "0" if not c.aux else ("1-5" if len(c.aux) <= 5 else "6-20")
         dist["naux"][b] = dist["naux"].get(b, 0) + 1
+        dist.setdefault("tables_with_refused_name_key_offers", 0)
+        dist["tables_with_refused_name_key_offers"] += 1 if c.refused else 0
         dist["special_coefficients"] += 1 if c.has_special() else 0
         for o in c.orders:
             dist["orders"][o] = dist["orders"].get(o, 0) + 1
     cov.update({"evaluations": r.stats["comparisons"], "distinct_nontrivial": len(distinct),
                 "rule": "random tables: 1..%d dims, pairwise different axis lengths, orders 0..5, coefficient bit patterns incl. NaN (quiet/signalling/payload), +-inf, -0, denormals, "
                         "knots uniform/random/wild/with special values, extents default/custom/absent, periods absent/present, 0..20 auxiliary keys (short and HIERARCH, quote-free values incl. empty, "
-                        "blank-padded, maximal length); non-trivial = >= 2 dims or special coefficient values or auxiliary keys; distinct by content hash" % (6 if tier == "quick" else 9),
+                        "blank-padded, maximal length), in 30 %% of the tables also 1..3 offers of EXTNAME / HDUNAME (values KNOTSn, EXTENTS, ...: refused, as the model predicts) or of near misses "
+                        "(EXTNAMES, HDUVER, ...: stored); every written file also re-read with EXTNAME / HDUNAME cards edited into its primary header; non-trivial = >= 2 dims or special coefficient values or auxiliary keys; distinct by content hash" % (6 if tier == "quick" else 9),
                 "samples": [c.describe() for _, c in cases[:3]],
                 "traces_validated_against_impl": r.stats["model_reads_of_library_bytes"] + r.stats["library_reads_of_model_bytes"],
                 "input_distribution": dist, "counts": r.stats, "generated_tables": len(cases), "corpus_cases": len(corpus),
